@@ -191,7 +191,43 @@ def run_shard(item):
                 out["violations"].append({"signature": "%s|%s" % (clause, label),
                                           "summary": "%s: %s variables=%r -> %r counters=%r" % (clause, text, variables, resps, scn.counters),
                                           "replay": {"refused": label}})
-        out["samples"].append({"refused_requests": [r[0] for r in REFUSED]})
+        # every way the X_r catalogue knows of giving a subscription more than one root field (directly, through inline / named /
+        # nested fragments, aliased twins), for each document: one errors-only response, the source never starts
+        from vf import doc as _doc, violations as _viol
+        from vf.model import validate as _V
+        for dlabel, dtext, dvars in DOCS:
+            base = _doc.parse(dtext)
+            for rule, site, d2 in _viol.inject(schema, base):
+                if rule != "5.2.3.1":
+                    continue
+                try:
+                    text, located = _doc.roundtrip(d2)
+                except Exception:  # noqa
+                    continue
+                if "5.2.3.1" not in _V.validate(schema, located):
+                    continue
+                scn = Scenario(root=None)
+                scn.source_events = [payload("W", 0, schema), payload("W", 1, schema)]
+                opn = located.operations[0].name if "non-first" not in site else [o.name for o in located.operations][-1]
+                try:
+                    resps = harness.subscribe_all(engine, text, scn, operation_name=opn, variables=dvars, limit=5)
+                    clause = None
+                except Exception as e:  # noqa
+                    resps, clause = [repr(e)], "subscribe-raised"
+                out["counts"]["sequences"] += 1
+                out["counts"]["schedules"] += 1
+                if clause is None:
+                    if len(resps) != 1:
+                        clause = "refused-request-yielded-%d-responses" % len(resps)
+                    elif resps[0].get("data") is not None or not resps[0].get("errors"):
+                        clause = "refused-request-not-errors-only"
+                    elif scn.counters["source"] or scn.counters["resolver"]:
+                        clause = "source-started-for-refused-request"
+                if clause:
+                    out["violations"].append({"signature": "%s|several-root-fields|%s" % (clause, site.split("|")[0]),
+                                              "summary": "%s: %s -> %r counters=%r" % (clause, text, resps, scn.counters),
+                                              "replay": {"refused": "several-root-fields"}})
+        out["samples"].append({"refused_requests": [r[0] for r in REFUSED] + ["several root fields: every 5.2.3.1 variant of every document"]})
     else:
         # two concurrent streams on one engine: every interleaving; each stream = its solo behaviour
         label, text, variables = DOCS[1]
